@@ -480,3 +480,46 @@ class AuxReports(SubCheck):
 
 
 SUBCHECKS = {c.name: c for c in [AuxReports()]}
+
+
+# =====================================================================================================================
+# run: the changed-genotype list against the REAL writer's output (run_whatshap as a whole), see checks/phase_run.py
+# =====================================================================================================================
+from checks import phase_run as _pr
+
+
+class Run(_pr.PhaseRun):
+    """C20, changed-genotype clause, with the real PhasedVcfWriter: each listed change is exactly a GT difference between the
+    input and the output VCF (same sample, chromosome, position; old and new genotype as in the files), every difference is
+    listed, and without --distrust-genotypes there is none."""
+
+    def filter_shapes(self, shapes):
+        return [s for s in shapes if s["old"] is None or s["distrust"]]
+
+    def judge(self, e, sc, shape, out, lists, info):
+        txt = lists.get("gtchanges.tsv")
+        e.check(txt is not None, "changed-genotype list was not written", info)
+        lines = [l.split("\t") for l in txt.splitlines() if l and not l.startswith("#")]
+        diffs = {}
+        for ri, ro in zip(sc.doc["records"], out["records"]):
+            for si, s in enumerate(_pr.SAMPLES):
+                a, b = sorted(ri["calls"][si]["GT"]), sorted(ro["calls"][si]["GT"])
+                if a != b:
+                    diffs[(s, ri["chrom"], ri["pos"])] = (a, b)
+        if diffs:
+            e.cover("genotype changed in the output VCF")
+            if any(len(set(b)) == 1 for a, b in diffs.values()):
+                e.cover("genotype changed to homozygous")
+        if not sc.distrust:
+            e.check(not lines and not diffs, "genotype changes (listed or made) although genotypes were trusted", info)
+        listed = set()
+        for l in lines:
+            keys = [k for k in diffs if k[0] == l[0] and k[1] == l[1] and int(l[2]) in (k[2] - 1, k[2])]
+            e.check(len(keys) == 1, "the changed-genotype list has an entry that is not a GT difference between input and output VCF", lambda: dict(info(), line=l, differences=sorted(map(str, diffs))))
+            listed.add(keys[0])
+        for k in diffs:
+            e.check(k in listed, "a GT difference between input and output VCF is missing from the changed-genotype list", lambda: dict(info(), difference=str(k)))
+
+
+Run.required_cover = _pr.PhaseRun.required_cover + ["genotype changed in the output VCF", "genotype changed to homozygous"]
+SUBCHECKS["run"] = Run()
